@@ -376,6 +376,11 @@ def run_scenario(scn, monitor_factories, package_dir, keep_log=False, crash_prop
             mediator.post_run()
         except ViolationStop:
             result.status = "violation"
+        except BaseException as exc:
+            if not getattr(exc, "verif_abort", False):
+                raise
+            result.status = "aborted"
+            result.abort = exc
         except HarnessError as exc:
             result.status = "harness_error"
             result.error = "".join(traceback.format_exception(type(exc), exc, exc.__traceback__))
